@@ -388,7 +388,7 @@ def close_while_paused(ctx, quick):
                                   'script': r['script']})
 
 
-DUPLEX = ('HonestNoError', 'AllDelivered', 'DataBeforeClose')
+DUPLEX = ('HonestNoError', 'AllDelivered', 'DataBeforeClose', 'EofDelivered')
 
 
 def main(ctx):
